@@ -37,7 +37,10 @@ theorem prim_roundtrip (w n : Nat) (h : n < 256 ^ w) (b : Bytes) (hb : IsBytes b
     leDecode (leEncode w n) = n ∧ leEncode b.length (leDecode b) = b :=
   ⟨leDecode_leEncode w n h, leEncode_leDecode b hb⟩
 
-example : (walkFile (encFile { verLine := [65], file := V 20 2 0 7, user := 12, «stream» := 100, numBlocks := 2,
-    types := [[66]], tidx := [0, 0], sizes := [1, 2] } [[7], [8, 9]])).isSome = true := by decide
+def sampleHeader : Header :=
+  { verLine := [65], file := V 20 2 0 7, user := 12, «stream» := 100, numBlocks := 2, types := [[66]],
+    tidx := [0, 0], sizes := [1, 2] }
+
+example : (walkFile (encFile sampleHeader [[7], [8, 9]])).isSome = true := by decide
 
 end Nifly.Wire
